@@ -399,11 +399,24 @@ package spec
 // singleDefs(t): every terminal has exactly one definition.
 //@ spec func singleDefs(t *SymbolTable) bool = forall a grammar.Terminal :: {a in t.terminals.table.dom} a in t.terminals.table.dom ==> len(defsOf(t, a)) == 1
 
+// the terminals in a fixed order: exactly the keys of the table, each once (the table iterates in a random order)
+//@ spec func allTerminals(t *SymbolTable, terms []grammar.Terminal) bool =
+//@   (forall k int :: {terms[k]} 0 <= k && k < len(terms) ==> (terms[k] in t.terminals.table.dom))
+//@   && (forall a grammar.Terminal :: {a in t.terminals.table.dom} (a in t.terminals.table.dom) ==> (exists k int :: 0 <= k && k < len(terms) && terms[k] == a))
+//@   && (forall k1 int, k2 int :: {terms[k1], terms[k2]} 0 <= k1 && k1 < k2 && k2 < len(terms) ==> terms[k1] != terms[k2])
+//@ func (t *SymbolTable) sortedTerminals() []grammar.Terminal
+//@   requires tableOK(t)
+//@   loop[0] invariant forall k int :: {terms[k]} 0 <= k && k < len(terms) ==> (terms[k] in __vis0)
+//@   loop[0] invariant forall a grammar.Terminal :: {a in __vis0} (a in __vis0) ==> (exists k int :: 0 <= k && k < len(terms) && terms[k] == a)
+//@   loop[0] invariant forall k1 int, k2 int :: {terms[k1], terms[k2]} 0 <= k1 && k1 < k2 && k2 < len(terms) ==> terms[k1] != terms[k2]
+//@   ensures @exactly-the-terminals-once allTerminals(t, result)
+
 //@ func (t *SymbolTable) ensureSingleDefs() error
 //@   requires tableOK(t)
+//@   loop[0] invariant allTerminals(t, terms)
 //@   loop[0] invariant errOK(errs) && (errs == nil || fresh(unbox(errs, "*errors.MultiError")))
-//@   loop[0] invariant errs != nil ==> (exists a grammar.Terminal :: a in __vis0 && len(defsOf(t, a)) != 1)
-//@   loop[0] invariant forall a grammar.Terminal :: {a in __vis0} {t.terminals.table.val[a]} a in __vis0 && len(defsOf(t, a)) != 1 ==> errs != nil
+//@   loop[0] invariant errs != nil ==> (exists k int :: 0 <= k && k < __i0 && len(defsOf(t, terms[k])) != 1)
+//@   loop[0] invariant forall k int :: {terms[k]} 0 <= k && k < __i0 && len(defsOf(t, terms[k])) != 1 ==> errs != nil
 //@   ensures errOK(result)
 //@   ensures @only-if result != nil ==> !singleDefs(t)
 //@   ensures @if result == nil ==> singleDefs(t)
@@ -418,12 +431,12 @@ package spec
 //@ func (t *SymbolTable) ensureDistinctDefs() error
 //@   requires tableOK(t)
 //@   requires forall a grammar.Terminal, k int :: {t.terminals.table.val[a].definitions[k]} (a in t.terminals.table.dom) && 0 <= k && k < len(t.terminals.table.val[a].definitions) ==> t.terminals.table.val[a].definitions[k] != nil
-//@   loop[0] invariant reverse != nil
+//@   loop[0] invariant reverse != nil && allTerminals(t, terms)
 //@   loop[0] invariant forall v string, j int :: {reverse[v][j]} 0 <= j && j < len(reverse[v]) ==> reverse[v][j] != nil
-//@   loop[0] invariant forall v string :: {len(reverse[v])} len(reverse[v]) >= 1 ==> (exists a grammar.Terminal :: (a in __vis0) && single1(t, a) && valueOf(t, a) == v)
-//@   loop[0] invariant forall v string :: {len(reverse[v])} len(reverse[v]) >= 2 ==> (exists a1 grammar.Terminal, a2 grammar.Terminal :: a1 != a2 && (a1 in __vis0) && (a2 in __vis0) && single1(t, a1) && single1(t, a2) && valueOf(t, a1) == v && valueOf(t, a2) == v)
-//@   loop[0] invariant forall a grammar.Terminal :: {a in __vis0} {t.terminals.table.val[a]} (a in __vis0) && single1(t, a) ==> len(reverse[valueOf(t, a)]) >= 1
-//@   loop[0] invariant forall a grammar.Terminal, b grammar.Terminal :: {a in __vis0, b in __vis0} {t.terminals.table.val[a], t.terminals.table.val[b]} a != b && (a in __vis0) && (b in __vis0) && single1(t, a) && single1(t, b) && valueOf(t, a) == valueOf(t, b) ==> len(reverse[valueOf(t, a)]) >= 2
+//@   loop[0] invariant forall v string :: {len(reverse[v])} len(reverse[v]) >= 1 ==> (exists k int :: 0 <= k && k < __i0 && single1(t, terms[k]) && valueOf(t, terms[k]) == v)
+//@   loop[0] invariant forall v string :: {len(reverse[v])} len(reverse[v]) >= 2 ==> (exists k1 int, k2 int :: 0 <= k1 && k1 < k2 && k2 < __i0 && single1(t, terms[k1]) && single1(t, terms[k2]) && valueOf(t, terms[k1]) == v && valueOf(t, terms[k2]) == v)
+//@   loop[0] invariant forall k int :: {terms[k]} 0 <= k && k < __i0 && single1(t, terms[k]) ==> len(reverse[valueOf(t, terms[k])]) >= 1
+//@   loop[0] invariant forall k1 int, k2 int :: {terms[k1], terms[k2]} 0 <= k1 && k1 < k2 && k2 < __i0 && single1(t, terms[k1]) && single1(t, terms[k2]) && valueOf(t, terms[k1]) == valueOf(t, terms[k2]) ==> len(reverse[valueOf(t, terms[k1])]) >= 2
 //@   loop[1] invariant forall v string :: {v in __vis1} (v in __vis1) ==> (exists k int :: 0 <= k && k < len(vals) && vals[k] == v)
 //@   loop[2] invariant errOK(errs) && (errs == nil || fresh(unbox(errs, "*errors.MultiError")))
 //@   loop[2] invariant errs != nil ==> (exists k int :: 0 <= k && k < __i2 && len(reverse[vals[k]]) > 1)
